@@ -149,13 +149,13 @@ example : wellLocked ⟨"a", [.producersLookup, .access "producer.Value()", .ret
     ∧ wellLocked ⟨"c", [.lock, .unlock, .access "producer.Value()", .ret]⟩ = false
     ∧ wellLocked ⟨"d", [.lock, .access "producer.Value()", .unlock, .ret]⟩ = true := by decide
 
-variable {V : Type} [DecidableEq V]
+variable {V : Type} [DecidableEq V] {F : Nat}
 
 /-! ### mutual exclusion -/
 
 /-- in every reachable state of every execution: a client is inside its critical section iff it
     owns the lock; so at most one client is -/
-theorem mutex_invariant (g0 : Graph V) (s : Sys V) (h : Exec g0 s) :
+theorem mutex_invariant (g0 : Graph V) (s : Sys V) (h : Exec F g0 s) :
     (∀ t, (s.pc t).inCrit = true ↔ s.lock = some t) ∧
     (∀ t u, (s.pc t).inCrit = true → (s.pc u).inCrit = true → t = u) := by
   have hj := J.exec h
@@ -173,31 +173,31 @@ theorem mutex_invariant (g0 : Graph V) (s : Sys V) (h : Exec g0 s) :
     that order contains every completed operation with the response it returned (and the pending
     ones that already took effect), respects real-time precedence, and is a run of the sequential
     specification ending in the current shared state -/
-theorem linearizable (g0 : Graph V) (s : Sys V) (h : Exec g0 s) :
-    Linearization g0 s.hist s.lin ∧ s.g = (replay g0 (s.lin.map (·.call))).1 := by
+theorem linearizable (g0 : Graph V) (s : Sys V) (h : Exec F g0 s) :
+    Linearization F g0 s.hist s.lin ∧ s.g = (replay F g0 (s.lin.map (·.call))).1 := by
   have hj := J.exec h
   refine ⟨⟨hj.nodup, hj.invoked, ?_, hj.realtime, hj.legal⟩, hj.state⟩
   intro e he id r heq
   subst heq
   exact hj.complete id r he
 
-theorem linearizable' (g0 : Graph V) (s : Sys V) (h : Exec g0 s) : Linearizable g0 s.hist :=
+theorem linearizable' (g0 : Graph V) (s : Sys V) (h : Exec F g0 s) : Linearizable F g0 s.hist :=
   ⟨s.lin, (linearizable g0 s h).1⟩
 
 /-- **one consistent snapshot** (by C11's `read_fresh`): in every linearization of any history
     from a never-evaluated graph, the response of an `Artifact` call is the from-scratch
     evaluation `Spec` of ONE state — the one its linearization point sees, i.e. the state reached
     by the operations linearized before it -/
-theorem artifact_snapshot (g0 : Graph V) (h0 : Init g0) (hist : List (Event V)) (S : List (LOp V))
-    (hS : Linearization g0 hist S) (pre post : List (LOp V)) (o : LOp V) (i : Nat)
+theorem artifact_snapshot (g0 : Graph V) (h0 : Init F g0) (hist : List (Event V)) (S : List (LOp V))
+    (hS : Linearization F g0 hist S) (pre post : List (LOp V)) (o : LOp V) (i : Nat)
     (hsplit : S = pre ++ o :: post) (hcall : o.call = .artifact i) :
-    o.resp = .val (Spec (replay g0 (pre.map (·.call))).1 i) := by
+    o.resp = .val (Spec F (replay F g0 (pre.map (·.call))).1 i) := by
   have hl := hS.legal
   subst hsplit
   simp only [List.map_append, List.map_cons] at hl
   rw [replay_append] at hl
   dsimp only at hl
-  have hlen : (replay g0 (pre.map (·.call))).2.length = (pre.map (·.resp)).length := by
+  have hlen : (replay F g0 (pre.map (·.call))).2.length = (pre.map (·.resp)).length := by
     simp [replay_length]
   have h2 := (List.append_inj hl hlen).2
   simp only [replay, List.cons.injEq] at h2
@@ -206,7 +206,7 @@ theorem artifact_snapshot (g0 : Graph V) (h0 : Init g0) (hist : List (Event V)) 
 
 /-- likewise a `ParameterData` call returns the value its linearization point sees -/
 theorem paramData_snapshot (g0 : Graph V) (hist : List (Event V)) (S : List (LOp V))
-    (hS : Linearization g0 hist S) (pre post : List (LOp V)) (o : LOp V) (p : Nat) (x : V) (n : Nat)
+    (hS : Linearization F g0 hist S) (pre post : List (LOp V)) (o : LOp V) (p : Nat) (x : V) (n : Nat)
     (hp : g0 p = .param x n) (hsplit : S = pre ++ o :: post) (hcall : o.call = .paramData p) :
     o.resp = .val ((lastUpd (pre.map (·.call)) p).getD x) := by
   have hl := hS.legal
@@ -214,12 +214,12 @@ theorem paramData_snapshot (g0 : Graph V) (hist : List (Event V)) (S : List (LOp
   simp only [List.map_append, List.map_cons] at hl
   rw [replay_append] at hl
   dsimp only at hl
-  have hlen : (replay g0 (pre.map (·.call))).2.length = (pre.map (·.resp)).length := by
+  have hlen : (replay F g0 (pre.map (·.call))).2.length = (pre.map (·.resp)).length := by
     simp [replay_length]
   have h2 := (List.append_inj hl hlen).2
   simp only [replay, List.cons.injEq] at h2
   rw [← h2.1, hcall]
-  obtain ⟨n', hn'⟩ := replay_param hp (pre.map (·.call))
+  obtain ⟨n', hn'⟩ := replay_param (F := F) hp (pre.map (·.call))
   simp [seqStep, hn']
 
 /-- **nothing older than a completed update**: an operation `a` whose response precedes the
@@ -227,7 +227,7 @@ theorem paramData_snapshot (g0 : Graph V) (hist : List (Event V)) (S : List (LOp
     (so by `artifact_snapshot` / `paramData_snapshot` / `snapshot_params` its effect, or that of a
     later update of the same parameter, is what `b` returns) -/
 theorem completed_before_is_visible (g0 : Graph V) (hist : List (Event V)) (S : List (LOp V))
-    (hS : Linearization g0 hist S) (pre post : List (LOp V)) (a b : LOp V)
+    (hS : Linearization F g0 hist S) (pre post : List (LOp V)) (a b : LOp V)
     (ha : a ∈ S) (hsplit : S = pre ++ b :: post)
     (hrt : before hist a.respE b.invE = true) : a ∈ pre := by
   have hb : b ∈ S := by rw [hsplit]; simp
@@ -248,18 +248,20 @@ omit [DecidableEq V] in
     `Linearization` — nothing older than an update that completed before the read began -/
 theorem snapshot_params (g0 : Graph V) (p : Nat) (x : V) (n : Nat) (hp : g0 p = .param x n)
     (cs : List (Call V)) :
-    ∃ n', (replay g0 cs).1 p = .param ((lastUpd cs p).getD x) n' :=
+    ∃ n', (replay F g0 cs).1 p = .param ((lastUpd cs p).getD x) n' :=
   replay_param hp cs
 
 omit [DecidableEq V] in
 /-- the from-scratch value depends only on parameter values, processors and wiring (not on caches,
     versions or what was evaluated before) -/
-theorem spec_depends_on_statics (g g' : Graph V) (hwf : WF g) (hs : SameStatic g' g) (i : Nat) :
-    Spec g' i = Spec g i := Spec_static hwf hs i
+theorem spec_depends_on_statics (g g' : Graph V) (hac : Acyclic F g) (hs : SameStatic g' g) (i : Nat) :
+    Spec F g' i = Spec F g i := by
+  obtain ⟨rank, hwf⟩ := hac
+  exact Spec_static hwf hs i
 
 /-- soundness of the executable check the driver runs on the order found by its (untrusted) search -/
 theorem witness_check_sound (g0 : Graph V) (h : List (Event V)) (S : List (LOp V))
-    (hc : checkWitness g0 h S = true) : Linearizable g0 h := by
+    (hc : checkWitness F g0 h S = true) : Linearizable F g0 h := by
   simp only [checkWitness, Bool.and_eq_true, decide_eq_true_eq, List.all_eq_true, Bool.or_eq_true,
     Bool.not_eq_true'] at hc
   obtain ⟨⟨⟨⟨h1, h2⟩, h3⟩, h4⟩, h5⟩ := hc
@@ -279,18 +281,19 @@ theorem witness_check_sound (g0 : Graph V) (h : List (Event V)) (S : List (LOp V
 omit [DecidableEq V] in
 /-- the evaluation micro-steps, run without interference, are exactly `Eval` (so the split used
     below is faithful to `process()`) -/
-theorem micro_uninterrupted (g : Graph V) (hwf : WF g) (i : Nat) (s : SNode V) (hs : g i = .struct s)
-    (ho : Outdated g i = true) :
-    (microRun i s (g, []) (s.deps.map .pull ++ [.finish])).1 = (Eval g i).1 := by
+theorem micro_uninterrupted (g : Graph V) (hac : Acyclic F g) (i : Nat) (s : SNode V) (hs : g i = .struct s)
+    (ho : Outdated F g i = true) :
+    (microRun F i s (g, []) (s.deps.map .pull ++ [.finish])).1 = (Eval F g i).1 := by
+  obtain ⟨rank, hwf⟩ := hac
   have hgen : ∀ (ds : List Nat) (g1 : Graph V) (vals : List V),
-      microRun i s (g1, vals) (ds.map .pull) = ((pull Eval g1 ds).1, vals ++ (pull Eval g1 ds).2.1) := by
+      microRun F i s (g1, vals) (ds.map .pull) = ((pull (Eval F) g1 ds).1, vals ++ (pull (Eval F) g1 ds).2.1) := by
     intro ds
     induction ds with
     | nil => intro g1 vals; simp [microRun, pull]
     | cons d ds ih =>
       intro g1 vals
       simp only [List.map_cons, microRun, List.foldl_cons, micro, pull]
-      have := ih (Eval g1 d).1 (vals ++ [val (Eval g1 d).1 d])
+      have := ih (Eval F g1 d).1 (vals ++ [val (Eval F g1 d).1 d])
       simp only [microRun] at this
       rw [this]
       simp
@@ -320,7 +323,7 @@ def dia : Graph Nat := fun i =>
 def badSchedule : List (Micro Nat) := [.pull 1, .update 0 10, .pull 2, .finish]
 
 /-- the artifact value the reader returns under that schedule -/
-def mixed : Nat := val (microRun 3 (mkN [some 1, some 2]) (dia, []) badSchedule).1 3
+def mixed : Nat := val (microRun 4 3 (mkN [some 1, some 2]) (dia, []) badSchedule).1 3
 
 /-- the history the two clients observe -/
 def badHistory : List (Event Nat) :=
@@ -329,12 +332,12 @@ def badHistory : List (Event Nat) :=
 /-- the artifact mixes L(a = 1) = 2 with R(a = 10) = 11: 14, while the two sequential answers are 5 and 23 -/
 theorem unlocked_mixes_states :
     mixed = 14 ∧
-    (replay dia [.artifact 3, .update 0 10]).2 = [.val 5, .ok] ∧
-    (replay dia [.update 0 10, .artifact 3]).2 = [.ok, .val 23] := by decide
+    (replay 4 dia [.artifact 3, .update 0 10]).2 = [.val 5, .ok] ∧
+    (replay 4 dia [.update 0 10, .artifact 3]).2 = [.ok, .val 23] := by decide
 
 /-- without the lock around the evaluation, the closed two-client schedule above produces a
     history that NO order of the two operations explains -/
-theorem unlocked_not_linearizable : ¬ Linearizable dia badHistory := by
+theorem unlocked_not_linearizable : ¬ Linearizable 4 dia badHistory := by
   rintro ⟨S, hS⟩
   have hval := unlocked_mixes_states
   have hinvk : ∀ o ∈ S, (o.id = 0 ∧ o.call = .artifact 3) ∨ (o.id = 1 ∧ o.call = .update 0 10) := by
@@ -384,14 +387,15 @@ theorem unlocked_not_linearizable : ¬ Linearizable dia badHistory := by
 
 /-- the same history is what the locked system can never produce: by `linearizable` every history
     of the locked system is linearizable -/
-theorem locked_never_bad (s : Sys Nat) (h : Exec dia s) : s.hist ≠ badHistory := by
+theorem locked_never_bad (s : Sys Nat) (h : Exec 4 dia s) : s.hist ≠ badHistory := by
   intro heq
   exact unlocked_not_linearizable (heq ▸ linearizable' dia s h)
 
 /-! ### non-vacuity: a concrete interleaved execution of the locked system -/
 
-example : Init dia := by
-  constructor
+example : Init 4 dia := by
+  refine ⟨⟨fun i => if i < 4 then i else 0, ?_, ?_⟩, ?_⟩
+  · intro i; dsimp only; split <;> omega
   · intro i s hs d hd
     match i with
     | 0 => simp [dia] at hs
@@ -399,6 +403,8 @@ example : Init dia := by
       simp only [dia, mkN, Node.struct.injEq] at hs
       subst hs
       simp [SNode.deps] at hd
+      have hd4 : d < 4 := by omega
+      simp only [hd4, if_true, show (1:Nat) < 4 by omega, show (2:Nat) < 4 by omega, show (3:Nat) < 4 by omega]
       omega
     | n+4 => simp [dia] at hs
   · intro i s hs
@@ -413,7 +419,7 @@ example : Init dia := by
 /-- a concrete interleaved execution of the locked system (hypothesis `Exec` of `linearizable`):
     client 0 invokes `Artifact(3)`, client 1 invokes and completes `UpdateParameter(0, 10)` first,
     then client 0 runs; the recorded history overlaps and the artifact is the post-update value -/
-example : ∃ s : Sys Nat, Exec dia s ∧
+example : ∃ s : Sys Nat, Exec 4 dia s ∧
     s.hist = [.inv 0 0 (.artifact 3), .inv 1 1 (.update 0 10), .resp 1 .ok, .resp 0 (.val 23)] ∧
     s.lin.map (·.id) = [1, 0] ∧ s.lock = none := by
   refine ⟨_, .step (.step (.step (.step (.step (.step (.step (.step (.step (.step .init
@@ -428,12 +434,12 @@ example : ∃ s : Sys Nat, Exec dia s ∧
 
 /-- the sequential witness `[update, artifact]` passes the executable check for the overlapping
     history in which the update's response precedes the artifact's -/
-example : checkWitness dia
+example : checkWitness 4 dia
     [.inv 0 0 (.artifact 3), .inv 1 1 (.update 0 10), .resp 1 .ok, .resp 0 (.val 23)]
     [⟨1, 1, .update 0 10, .ok⟩, ⟨0, 0, .artifact 3, .val 23⟩] = true := by decide
 
 /-- and rejects the order that violates real time in a non-overlapping history -/
-example : checkWitness dia
+example : checkWitness 4 dia
     [.inv 1 1 (.update 0 10), .resp 1 .ok, .inv 0 0 (.artifact 3), .resp 0 (.val 5)]
     [⟨0, 0, .artifact 3, .val 5⟩, ⟨1, 1, .update 0 10, .ok⟩] = false := by decide
 
